@@ -49,6 +49,11 @@ def s1_formula(ctx):
     ctx.floor('C10.S1', 'sizing paths of the long-only sizer', len(sp), 2)
     for s in sp:
         p, lp = s['path'], s['loop']
+        from .sizers import arrayish
+        if arrayish(lp.iter):
+            ctx.undecided('C10.S1', 'quantity = floor((share - estimated fee) / price) for each asset', lp.site,
+                          'the shares of all assets are computed at once by array arithmetic (%s): not read element by element' % fmt(lp.iter)[:100])
+            continue
         asset, w, wsrc = loop_asset_weight(lp)
         alloc = T.t_mul(T.t_mul(EQUITY, T.t_sub(num(1), A('self', 'cash_buffer_percentage'))), w)
         require_fresh_target(ctx, 'C10.S1', s, CN, 'C10.S1|fresh-target')
